@@ -45,6 +45,22 @@ def tree(rng, depth, size=32):
         op = rng.choice(['+', '+', '+', '^', '&', '|', '*'])
         n = rng.choice([2, 2, 3, 4])
         args = [tree(rng, depth - 1) for _ in range(n)]
+        y = rng.random()
+        if y < 0.12:
+            # two siblings applying the same NON-commutative operator to swapped operands
+            # (operands anchored on identifiers: two constants would make the simplifier fold a huge shift)
+            a, b = rng.sample(REG_RECIPES + FRESH, 2)
+            if rng.random() < 0.4:
+                a = ['O', '+', [a, tree(rng, depth - 2)]]
+            nc = rng.choice(['<<', '>>', 'a>>', '<<<', '>>>', '==', '-'])
+            args += [['O', nc, [a, b]], ['O', nc, [b, a]]]
+        elif y < 0.24 and op in ('|', '&', '^', '+'):
+            # memory operands that differ only by their segment, plus a duplicate
+            addr = rng.choice(REG_RECIPES) if rng.random() < 0.6 else ['O', '+', [rng.choice(REG_RECIPES), r_int(rng.choice([4, 8]))]]
+            segs = [['D', sname, 16, False, True] for sname in rng.sample(['ds', 'es', 'ss', 'fs'], 2)]
+            m0 = ['M', addr, 32, segs[0], False]
+            m1 = ['M', addr, 32, segs[1], False]
+            args += rng.choice([[m0, m1, m0], [m1, m0], [m0, m1, m1], [m1, ['M', addr, 32, None, False], m0]])
         if rng.random() < 0.25:
             args.append(args[0])                     # A op A rules
         if op == '+' and rng.random() < 0.25:
@@ -67,6 +83,8 @@ def tree(rng, depth, size=32):
         if op == '>>' and rng.random() < 0.3:
             inner = ['O', '&', [inner, r_int(rng.choice([0xf, 0xff, 0xff00]))]]
         return ['O', op, [inner, r_int(rng.choice([0, 1, 4, 8, 16, 31, 32]))]]
+    if k < 0.66:
+        return compose(rng, depth)
     if k < 0.73:
         cut = rng.choice([8, 16])
         if rng.random() < 0.4:
@@ -85,6 +103,36 @@ def tree(rng, depth, size=32):
     if k < 0.94:
         return ['O', '==', [tree(rng, depth - 1), tree(rng, depth - 1) if rng.random() < 0.5 else r_int(0)]]
     return ['O', 'parity', [tree(rng, depth - 1)]]
+
+SRC16 = [['D', n, 16, False, False] for n in ('w', 'v')] + [['D', n, 16, False, True] for n in ('es', 'ds')]
+def compose(rng, depth):
+    """32-bit compose of 2-4 byte-aligned slots; slots are slices of shared 16-
+    or 32-bit sources at matching or different positions (merge rules),
+    constants, or slices of sub-trees."""
+    cuts = sorted(rng.sample([8, 16, 24], rng.choice([1, 2, 2, 3])))
+    bounds = [0] + cuts + [32]
+    src32 = rng.choice(REG_RECIPES + FRESH)
+    src16 = rng.choice(SRC16)
+    slots = []
+    for a, b in zip(bounds, bounds[1:]):
+        w = b - a
+        y = rng.random()
+        if y < 0.35:
+            slots.append([['S', src32, a, b], a, b])                 # same position: merges back to the source
+        elif y < 0.55 and b <= 16:
+            slots.append([['S', src16, a, b], a, b])                 # adjacent slices of a 16-bit source
+        elif y < 0.65 and w <= 16:
+            lo = rng.choice([0, 8]) if w == 8 else 0
+            slots.append([['S', src16, lo, lo + w], a, b])
+        elif y < 0.8 and w in (8, 16):
+            slots.append([r_int(rng.choice(CONSTS), w), a, b])
+        elif y < 0.9:
+            slots.append([['S', rng.choice(REG_RECIPES), rng.choice([0, 8]) if w <= 24 else 0, 0, ], a, b])
+            lo = slots[-1][0][2]
+            slots[-1][0] = ['S', slots[-1][0][1], lo, lo + w]
+        else:
+            slots.append([['S', tree(rng, depth - 1), a, b], a, b])
+    return ['C', slots]
 
 ASSOC = ('+', '*', '^', '&', '|')
 
@@ -152,12 +200,32 @@ def emul_program(rng):
             lines.append(rng.choice(['lea eax, [ebx+ecx*4+8]', 'xchg eax, edx', 'movzx eax, cl', 'neg ecx', 'shl eax, 4', 'inc edx']))
     return lines
 
+SYMS = ['foo', 'bar', 'baz', 'alpha', 'beta', 'gamma', 'delta', '.LC0', '.LC1', 'tab', 'off', 'first', 'second']
+def symline(rng):
+    n = rng.choice([2, 2, 3, 4])
+    syms = rng.sample(SYMS, n)
+    expr = syms[0]
+    for x in syms[1:]:
+        expr += rng.choice(['+', '+', '+', '-']) + x
+    k = rng.random()
+    if k < 0.3:
+        return 'mov eax, OFFSET FLAT:%s' % expr
+    if k < 0.55:
+        return 'mov eax, DWORD PTR [ebx+%s]' % expr
+    if k < 0.75:
+        return 'lea ecx, [%s+edx+4]' % expr
+    if k < 0.9:
+        return 'push %s+8' % expr
+    return 'mov DWORD PTR %s[ebx], eax' % expr
+
 def workload(seed, n):
     rng = random.Random(seed)
     items = []
     for i in range(n):
         k = rng.random()
-        if k < 0.55:
+        if k < 0.04:
+            items.append({'kind': 'symline', 'line': symline(rng)})
+        elif k < 0.55:
             e = tree(rng, rng.choice([1, 2, 3, 3, 4, 5]))
             it = {'kind': 'simp', 'e': e}
             if has_assoc(e):
